@@ -27,6 +27,24 @@ type Air struct {
 	Temp float64 `point:"temp"`
 }
 
+// Opt: a flat struct one of whose fields is a pointer to a scalar (an optional setting)
+type Opt struct {
+	Name  string   `point:"name"`
+	Limit *float64 `point:"limit"`
+	Count int      `point:"count"`
+}
+
+func optOf(name string, limit float64, hasLimit bool, count int) func() *Opt {
+	return func() *Opt {
+		o := &Opt{Name: name, Count: count}
+		if hasLimit {
+			l := limit
+			o.Limit = &l
+		}
+		return o
+	}
+}
+
 type Flat struct {
 	A int     `point:"a"`
 	B string  `point:"b"`
@@ -480,6 +498,7 @@ func allKindsT(thorough bool) []kind {
 		mkKind("map[string]string", mapsOf(nil, map[string]string{"a": "x"}, map[string]string{"a": ""}, map[string]string{"a": "y"}, map[string]string{"a": "x", "b": "y"}, map[string]string{"0": "z"}, map[string]string{"é": "✓"}), func() map[string]string { return map[string]string{"k": "seven", "0": "eight"} }),
 		mkKind("map[string]bool", mapsOf(nil, map[string]bool{"a": true}, map[string]bool{"a": false}, map[string]bool{"a": true, "b": false}), func() map[string]bool { return map[string]bool{"k": true} }),
 		mkKind("map[string]float64", mapsOf(nil, map[string]float64{"a": 1.5}, map[string]float64{"a": 0}, map[string]float64{"a": math.Inf(1), "b": -2}), func() map[string]float64 { return map[string]float64{"k": 7} }),
+		mkKind("*struct(with pointer field)", []func() *Opt{func() *Opt { return nil }, optOf("x", 1.5, true, 3), optOf("x", 0, false, 3), optOf("", 0, false, 0), optOf("y", 0, true, 0)}, optOf("seven", 7, true, 7)),
 		mkKind("*struct(capital tags)", []func() *Air{func() *Air { return nil }, func() *Air { return &Air{} }, func() *Air { return &Air{CO2: 415, PM25: 12.5} }, func() *Air { return &Air{Temp: 21} }}, func() *Air { return &Air{CO2: 7, PM25: 7, Temp: 7} }),
 		mkKind("struct(capital tags)", cs(Air{}, Air{CO2: 415}, Air{PM25: 12.5, Temp: 21}), func() Air { return Air{7, 7, 7} }),
 		mkKind("[]int(spare capacity)", slicesOf(nil, []int{1}, []int{1, 2, 3}), func() []int { s := make([]int, 2, 8); s[0], s[1] = 7, 8; return s }),
